@@ -274,10 +274,11 @@ theorem pending_origin (s0 : Sess) (hs0 : s0.state ≠ .testRequestSent) (rev : 
           simp only [step, recv] at h
           split at h
           · exact hp h
-          · cases k <;> simp [Sess.received, Sess.send, Sess.stop] at h
-            · split at h <;> simp at h
-              exact hp h
-            all_goals exact hp h
+          · cases k <;> simp [Sess.received, Sess.send, Sess.stop] at h <;>
+              first
+              | exact hp h
+              | (split at h <;> simp at h <;> exact hp h)
+              | (split at h <;> simp_all)
         | appSend t =>
           exfalso
           generalize final s0 es.reverse = s at h hp
@@ -309,10 +310,11 @@ theorem pending_origin (s0 : Sess) (hs0 : s0.state ≠ .testRequestSent) (rev : 
           simp only [step, recv] at h
           split at h
           · exact hp h
-          · cases k <;> simp [Sess.received, Sess.send, Sess.stop] at h
-            · split at h <;> simp at h
-              exact hp h
-            all_goals exact hp h
+          · cases k <;> simp [Sess.received, Sess.send, Sess.stop] at h <;>
+              first
+              | exact hp h
+              | (split at h <;> simp at h <;> exact hp h)
+              | (split at h <;> simp_all)
         | appSend t =>
           exfalso
           generalize final s0 es.reverse = s at h hp
